@@ -1,13 +1,18 @@
 import RpmVerif.Driver.Common
 import RpmVerif.Driver.Hash
 import RpmVerif.Model.Sign
+import RpmVerif.Model.SignE
 import RpmVerif.Spec.Digest
 /-! Driver for C10. Op `hist <kind> <start package bytes> <ops> <ids> [gpg]` (see harness/src/c10.rs).
 
 Observation: one record for the start state and one per step, joined by `;`:
-`<verify bits R P E C>,<key ids | err>,<digests ok|err>,<fnv main header>,<fnv content>[,<gpgv>]`.
+`<verify bits R P E C>,<key ids | err>,<digests ok|err>,<fnv main header>,<fnv content>,<res>[,<gpgv>]`, `res` = `-` |
+`t<creation time>` / `tnow` (a fresh signature) | `e:<error class>` (a refused signing attempt); `E:<op>` / `P:<op>` end a
+history (failed step / panic).
 
-Model: the Lean parser on the start package, then `Sign.step` per op with the SYMBOLIC scheme `Sign.Sym`
+Model: the Lean parser on the start package, then `Sign.attemptF` / `Sign.settle` (`Model/SignE.lean`: `sign_with_timestamp`
+/ `sign` with the timestamp conversion, the signer's answer and `SignatureHeaderBuilder::build` as fallible steps, a
+refusal leaving the package as it was) per op with the SYMBOLIC scheme `Sign.Sym`
 (keys 0..3 = R P E C; a signature is an opaque token; key ids from the request's table, which the harness
 computes from the public key files per RFC 4880 without going through rpm-rs), `verifyWith` per key,
 `keyIds`, `verifyDigests` with the driver's own MD5 / SHA-1 / SHA-256. A foreign (real OpenPGP) signature in the
@@ -20,8 +25,6 @@ not judged); digests verify; main header and payload hash to the start package's
 of the input bytes); a fresh signature is accepted by gpgv when that oracle ran; no step fails. -/
 namespace RpmVerif.Driver.C10
 open RpmVerif.Hdr RpmVerif.Sign RpmVerif.Driver RpmVerif.Gen
-
-def ops : List String := ["hist"]
 
 def sigTime : Nat := 1600000000
 
@@ -69,13 +72,11 @@ def issuerSubs : Nat → Bytes → List Bytes
       let ty := (body.headD 0).toNat % 128
       (if ty == 16 && len == 9 then [body.drop 1] else []) ++ issuerSubs fuel rest
 
-/-- `parse_signature(..)?.issuer()` for a real signature packet: v2/v3 issuer field, v4 Issuer subpackets
-(hashed area first, then unhashed) -/
-def pgpIssuers (s : Bytes) : Option (List Bytes) :=
+/-- tag and body of the first OpenPGP packet of `s` -/
+def firstPacket (s : Bytes) : Option (Nat × Bytes) :=
   match s with
   | b0 :: r =>
     if b0.toNat < 128 then none else
-    let hdr : Option (Nat × Bytes) :=
       if b0.toNat < 192 then
         -- old format: tag in bits 5..2, length type in bits 1..0
         let tag := (b0.toNat / 4) % 16
@@ -89,26 +90,43 @@ def pgpIssuers (s : Bytes) : Option (List Bytes) :=
         match newLen r with
         | some (len, used) => some (b0.toNat % 64, (r.drop used).take len)
         | none => none
-    match hdr with
-    | some (2, body) =>
-      match body with
-      | ver :: rest =>
-        if ver == 2 || ver == 3 then
-          -- hashed length (5), type, time (4), key id (8)
-          if rest.length ≥ 14 then some [(rest.drop 6).take 8] else none
-        else if ver == 4 then
-          match rest with
-          | _ :: _ :: _ :: h1 :: h2 :: rest' =>
-            let hl := h1.toNat * 256 + h2.toNat
-            let hashed := rest'.take hl
-            match rest'.drop hl with
-            | u1 :: u2 :: rest'' =>
-              let ul := u1.toNat * 256 + u2.toNat
-              some (issuerSubs hl hashed ++ issuerSubs ul (rest''.take ul))
-            | _ => none
+  | _ => none
+
+/-- `parse_signature(..)?.issuer()` for a real signature packet: v2/v3 issuer field, v4 Issuer subpackets
+(hashed area first, then unhashed) -/
+def pgpIssuers (s : Bytes) : Option (List Bytes) :=
+  match firstPacket s with
+  | some (2, body) =>
+    match body with
+    | ver :: rest =>
+      if ver == 2 || ver == 3 then
+        -- hashed length (5), type, time (4), key id (8)
+        if rest.length ≥ 14 then some [(rest.drop 6).take 8] else none
+      else if ver == 4 then
+        match rest with
+        | _ :: _ :: _ :: h1 :: h2 :: rest' =>
+          let hl := h1.toNat * 256 + h2.toNat
+          let hashed := rest'.take hl
+          match rest'.drop hl with
+          | u1 :: u2 :: rest'' =>
+            let ul := u1.toNat * 256 + u2.toNat
+            some (issuerSubs hl hashed ++ issuerSubs ul (rest''.take ul))
           | _ => none
-        else none
-      | _ => none
+        | _ => none
+      else none
+    | _ => none
+  | _ => none
+
+/-- `parse_signature(..)?.config.pub_alg` for a real signature packet (v4: version, type, ALGORITHM; v2/v3: after the
+hashed material, time and key id) -/
+def pgpPubAlg (s : Bytes) : Option Nat :=
+  match firstPacket s with
+  | some (2, body) =>
+    match body with
+    | ver :: rest =>
+      if ver == 2 || ver == 3 then (if rest.length ≥ 17 then (rest.drop 14).head?.map (·.toNat) else none)
+      else if ver == 4 then (if rest.length ≥ 9 then (rest.drop 1).head?.map (·.toNat) else none)
+      else none
     | _ => none
   | _ => none
 
@@ -130,26 +148,63 @@ def hexText (bs : Bytes) : Bytes := (hexOfBytes bs).toUTF8.toList
   b64enc := Sym.enc
   b64dec := Sym.dec
 
+/-- `parse_signature(sig)?.config.pub_alg`: a token names its key (`Sym.pubAlg`); anything else is read as a real packet -/
+def pubAlgOf (s : Bytes) : Option Nat :=
+  match Sym.pubAlg s with
+  | some a => some a
+  | none => pgpPubAlg s
+
 /-! ### request decoding -/
 
 def keyIndex (c : Char) : Option UInt8 :=
   if c == 'R' then some 0 else if c == 'P' then some 1 else if c == 'E' then some 2 else if c == 'C' then some 3 else none
 
-/-- a step of the harness: `some op` = an operation of the model; `none` = a signing ATTEMPT that the signer refuses
-(`xP`: the passphrase-protected key without its passphrase) — `sign` returns an error and the package must be
-exactly what it was. `S<key>` signs with a creation time far in the future (4 000 000 000): verification does not
-depend on any clock. -/
-def parseOp (s : String) : Option (Option (Op UInt8)) :=
-  if s == "c" then some (some .clear)
-  else if s == "w" then some (some .writeParse)
-  else match s.toList with
-    | ['s', c] => (keyIndex c).map fun k => some (.sign k sigTime)
-    | ['S', c] => (keyIndex c).map fun k => some (.sign k 4000000000)
-    | ['x', c] => (keyIndex c).map fun _ => none
-    | _ => none
+/-- the wall clock the model assumes for `Package::sign` (any reading inside the range: nothing observed depends on it
+but the creation time, which the harness reports as `tnow`) -/
+def assumedClock : Timestamp.Instant := ⟨1700000000, 0, by decide⟩
 
-def parseOps (s : String) : Option (List (Option (Op UInt8))) :=
-  if s == "-" then some [] else (s.splitOn ",").mapM parseOp
+/-- `<kind>:<secs>:<nanos>` → the timestamp argument -/
+def parseTs (s : String) : Option AddData.TsArg :=
+  match s.splitOn ":" with
+  | [kind, secs, nanos] =>
+    match secs.toInt?, nanos.toNat? with
+    | some sc, some n =>
+      if h : n < 1000000000 then
+        let inst : Timestamp.Instant := ⟨sc, n, h⟩
+        if kind == "u32" then (if 0 ≤ sc && sc < 4294967296 && n == 0 then some (.secs sc.toNat) else none)
+        else if kind == "sys" then some (.src (.sys inst))
+        else if kind == "utc" then some (.src (.chrono ⟨inst, 0⟩))
+        else if kind == "fix" then some (.src (.chrono ⟨inst, 20700⟩))
+        else none
+      else none
+    | _, _ => none
+  | _ => none
+
+/-- a step of the harness (see harness/src/c10.rs): `s<K>` / `S<K>` / `s<K>@<ts>` sign_with_timestamp with a usable key,
+`n<K>` Package::sign, `xP` / `xF` signers that refuse (locked key: SignError; foreign implementation: KeyNotFoundError),
+`r<hex>` a foreign implementation answering with these bytes, `c`, `w` -/
+def parseOp (s : String) : Option (OpF UInt8) :=
+  if s == "c" then some .clear
+  else if s == "w" then some .writeParse
+  else
+    let (head, ts?) : String × Option (Option AddData.TsArg) := match s.splitOn "@" with
+      | [h, t] => (h, some (parseTs t))
+      | _ => (s, none)
+    match ts? with
+    | some none => none
+    | _ =>
+      let ts : Option AddData.TsArg := ts?.bind id
+      match head.toList with
+      | ['s', c] => (keyIndex c).map fun k => .sign (.key k) (ts.getD (.secs sigTime))
+      | ['S', c] => if ts.isSome then none else (keyIndex c).map fun k => .sign (.key k) (.secs 4000000000)
+      | ['n', c] => if ts.isSome then none else (keyIndex c).map fun k => .signNow (.key k) assumedClock
+      | ['x', 'P'] => some (.sign (.failing "SignError") (ts.getD (.secs sigTime)))
+      | ['x', 'F'] => some (.sign (.failing "KeyNotFoundError") (ts.getD (.secs sigTime)))
+      | 'r' :: hex => (bytesOfHex (String.ofList hex)).map fun b => .sign (.raw b) (ts.getD (.secs sigTime))
+      | _ => none
+
+def parseOps (s : String) : Option (List (String × OpF UInt8)) :=
+  if s == "-" then some [] else (s.splitOn ",").mapM fun t => (parseOp t).map fun o => (t, o)
 
 /-- `R=<hex>,P=…,E=…,C=…` → text of the id per key index -/
 def parseIds (s : String) : UInt8 → Bytes :=
@@ -186,41 +241,67 @@ def idsStr : Out (List Bytes) → String
   | .ok l => "+".intercalate (l.map textOf)
   | _ => "err"
 
-/-- model record of one state; `gpgField` = what to print in the gpgv column (none: column absent) -/
-def record (ids : UInt8 → Bytes) (H : Hashes) (p : Package) (gpgField : Option String) : String :=
+/-- model record of one state; `res` = last column; `gpgField` = what to print in the gpgv column (none: column absent) -/
+def recordR (ids : UInt8 → Bytes) (H : Hashes) (p : Package) (res : String) (gpgField : Option String) : String :=
   let S := scheme ids
   let bits := String.ofList (([0, 1, 2, 3] : List UInt8).map fun k =>
     if (verifyWith S H.md5 H.sha1 H.sha256 k p).isOk then '1' else '0')
   let dig := if (Digest.verifyDigests H.md5 H.sha1 H.sha256 p).isOk then "ok" else "err"
-  let base := s!"{bits},{idsStr (keyIds S p)},{dig},{hex16 (fnv (writeHeader p.md.header))},{hex16 (fnv p.content)}"
+  let base := s!"{bits},{idsStr (keyIds S p)},{dig},{hex16 (fnv (writeHeader p.md.header))},{hex16 (fnv p.content)},{res}"
   match gpgField with
   | some g => base ++ "," ++ g
   | none => base
 
-def isSign : Op UInt8 → Bool | .sign _ _ => true | _ => false
+/-- a signing with one of the four keys (the gpgv oracle applies to its result) -/
+def isKeySign : OpF UInt8 → Bool
+  | .sign (.key _) _ => true
+  | .signNow (.key _) _ => true
+  | _ => false
+
+/-- the creation time a successful signing step reports -/
+def createdStr : OpF UInt8 → String
+  | .sign _ t => match AddData.timestampSetter t with | .ok n => "t" ++ toString n | _ => "t?"
+  | .signNow _ _ => "tnow"
+  | _ => "-"
+
+/-- a foreign signer's bytes carry no creation time the harness could read unless they are a real packet with one; the
+hand-made packets have no sub-packets -/
+def resOfSuccess (o : OpF UInt8) : String :=
+  match o with
+  | .sign (.raw _) _ => "t?"
+  | .signNow (.raw _) _ => "t?"
+  | _ => createdStr o
 
 /-- the gpgv column of impl record `i` (the model does not predict whether the tool could run) -/
 def implGpg (implRecs : List String) (i : Nat) : String :=
-  ((implRecs.getD i "").splitOn ",").getD 5 ""
+  ((implRecs.getD i "").splitOn ",").getD 6 ""
 
 /-- model observation: records of the start state and of every step -/
 def modelObs (ids : UInt8 → Bytes) (H : Hashes) (p0 : Package)
-    (opsL : List (Option (Op UInt8))) (gpg : Bool) (implRecs : List String) : String :=
-  let rec go (p : Package) (rest : List (Option (Op UInt8))) (i : Nat) (acc : List String) : List String :=
+    (opsL : List (String × OpF UInt8)) (gpg : Bool) (implRecs : List String) : String :=
+  let S := scheme ids
+  let rec go (p : Package) (rest : List (String × OpF UInt8)) (i : Nat) (acc : List String) : List String :=
     match rest with
     | [] => acc.reverse
-    | none :: os => go p os (i + 1) (record ids H p (if gpg then some "-" else none) :: acc)   -- refused signing: unchanged
-    | some o :: os =>
-      match step (scheme ids) H.sha256 o p with
-      | .ok q =>
-        let g := if !gpg then none
-          else if isSign o then some (if implGpg implRecs i == "skipped" then "skipped" else "ok")
-          else some "-"
-        go q os (i + 1) (record ids H q g :: acc)
+    | (name, o) :: os =>
+      match o with
+      | .writeParse =>
+        match stepF S pubAlgOf H.sha256 o p with
+        | .ok q => go q os (i + 1) (recordR ids H q "-" (if gpg then some "-" else none) :: acc)
+        | _ => (("E:" ++ name) :: acc).reverse
       | _ =>
-        let name := match o with | .sign k _ => "s" ++ String.ofList [(['R', 'P', 'E', 'C'] : List Char).getD k.toNat '?'] | .clear => "c" | .writeParse => "w"
-        (("E:" ++ name) :: acc).reverse
-  ";".intercalate (go p0 opsL 1 [record ids H p0 (if gpg then some "-" else none)])
+        match attemptF S pubAlgOf H.sha256 o p with
+        | .ok q =>
+          let g := if !gpg then none
+            else if isKeySign o then some (if implGpg implRecs i == "skipped" then "skipped" else "ok")
+            else some "-"
+          let res := match o with | .clear => "-" | _ => resOfSuccess o
+          go q os (i + 1) (recordR ids H q res g :: acc)
+        | .err c =>
+          -- a refused attempt: the package is what it was (`Sign.settle`)
+          go p os (i + 1) (recordR ids H p ("e:" ++ c) (if gpg then some "-" else none) :: acc)
+        | .panic _ => (("P:" ++ name) :: acc).reverse
+  ";".intercalate (go p0 opsL 1 [recordR ids H p0 "-" (if gpg then some "-" else none)])
 
 /-! ### spec -/
 
@@ -229,17 +310,50 @@ structure SpecState where
   touched : Bool
   signer : Option UInt8
 
-def SpecState.after (s : SpecState) : Op UInt8 → SpecState
-  | .sign k _ => ⟨true, some k⟩
+/-- how the property reads a step, from the request alone -/
+inductive SpecOp where
+  | sign (k : UInt8)   -- a signing with one of the keys, at a time a `Timestamp` can hold
+  | clear
+  | writeParse
+  | refused            -- a signing attempt by a signer that refuses: not a signing, nothing may change
+  | foreign            -- a signer outside the property's alphabet answering with bytes of its own
+  | outOfRange         -- a `SystemTime` / `DateTime` no `Timestamp` can hold: not a valid operation (the conversion is
+                       -- unwrapped: defect class `timestamp-setter-panic`, known finding of C17)
+
+def tsInRange : AddData.TsArg → Bool
+  | .secs _ => true
+  | .src s => decide (0 ≤ s.instant.secs ∧ s.instant.secs < 4294967296)
+
+def specOp : OpF UInt8 → SpecOp
+  | .clear => .clear
+  | .writeParse => .writeParse
+  | .signNow (.key k) _ => .sign k
+  | .signNow (.failing _) _ => .refused
+  | .signNow (.raw _) _ => .foreign
+  | .sign sg t =>
+    if !tsInRange t then .outOfRange else
+    match sg with
+    | .key k => .sign k
+    | .failing _ => .refused
+    | .raw _ => .foreign
+
+def SpecState.after (s : SpecState) : SpecOp → SpecState
+  | .sign k => ⟨true, some k⟩
   | .clear => ⟨true, none⟩
-  | .writeParse => s
+  | _ => s
+
+/-- verdict marker for "the property does not speak about this history" -/
+def silent : String := "~"
 
 /-- first demand of the property one record violates -/
 def judgeRecord (kind : String) (ids : UInt8 → Bytes) (hdrFnv contFnv : String) (gpg : Bool)
     (s : SpecState) (fresh : Bool) (rec : String) : Option String :=
-  if rec.startsWith "E:" then some "step-failed" else
+  if rec.startsWith "E:" then some "step-failed"
+  else if rec.startsWith "P:" then some "step-panicked"
+  else if rec.startsWith "U:" then some silent
+  else
   match rec.splitOn "," with
-  | bits :: kid :: dig :: h :: c :: rest =>
+  | bits :: kid :: dig :: h :: c :: _res :: rest =>
     let wantBits := String.ofList ((List.range 4).map fun i => if s.signer == some i.toUInt8 then '1' else '0')
     if bits != wantBits then
       some (if s.signer.isSome && bits == "0000" then "signer-does-not-verify"
@@ -258,10 +372,15 @@ def judgeRecord (kind : String) (ids : UInt8 → Bytes) (hdrFnv contFnv : String
     else if rest.isEmpty then none else some "record-shape"
   | _ => some "record-shape"
 
-def judge (kind : String) (ids : UInt8 → Bytes) (hdrFnv contFnv : String) (gpg : Bool) (opsL : List (Option (Op UInt8)))
+def endsHistory (r : String) : Bool := r.startsWith "E:" || r.startsWith "P:" || r.startsWith "U:"
+
+/-- the last column of a record -/
+def resOf (r : String) : String := (r.splitOn ",").getD 5 ""
+
+def judge (kind : String) (ids : UInt8 → Bytes) (hdrFnv contFnv : String) (gpg : Bool) (opsL : List (String × OpF UInt8))
     (implRecs : List String) : Option String :=
-  if implRecs.length != opsL.length + 1 && !(implRecs.getLast?.map (·.startsWith "E:")).getD false then some "record-count" else
-  let rec go (s : SpecState) (fresh : Bool) (recs : List String) (rest : List (Option (Op UInt8))) : Option String :=
+  if implRecs.length != opsL.length + 1 && !(implRecs.getLast?.map endsHistory).getD false then some "record-count" else
+  let rec go (s : SpecState) (fresh : Bool) (recs : List String) (rest : List (String × OpF UInt8)) : Option String :=
     match recs with
     | [] => none
     | r :: rs =>
@@ -270,11 +389,39 @@ def judge (kind : String) (ids : UInt8 → Bytes) (hdrFnv contFnv : String) (gpg
       | none =>
         match rest with
         | [] => if rs.isEmpty then none else some "record-count"
-        | some o :: os => go (s.after o) (isSign o) rs os
-        | none :: os => go s false rs os     -- a refused signing attempt is not a signing: nothing may change
+        | (_, o) :: os =>
+          match specOp o with
+          | .outOfRange => some silent
+          | .foreign =>
+            -- turned down by `build`: a refused attempt, nothing may change; accepted: not one of the property's operations
+            match rs with
+            | r2 :: _ => if (resOf r2).startsWith "e:" then go s false rs os else some silent
+            | [] => none
+          | so => go (s.after so) (match so with | .sign _ => true | _ => false) rs os
   go ⟨false, none⟩ false implRecs opsL
 
-def handle (_op : String) (args : List String) (impl : String) : String :=
+def keyLetter (k : UInt8) : String := String.ofList [(['R', 'P', 'E', 'C'] : List Char).getD k.toNat '?']
+
+/-- branch label: start kind, length, final signature state, and which of the special step forms occur -/
+def histLabel (kind : String) (opsL : List (String × OpF UInt8)) : String :=
+  let sops := opsL.map fun x => specOp x.2
+  let oor := sops.any fun | .outOfRange => true | _ => false
+  let upto := sops.takeWhile fun | .outOfRange => false | _ => true
+  let final : SpecState := upto.foldl SpecState.after ⟨false, none⟩
+  let fin := match final.signer with
+    | some k => "signed" ++ keyLetter k
+    | none => if final.touched then "cleared" else "untouched"
+  let has (f : OpF UInt8 → Bool) (tag : String) : String := if opsL.any (fun x => f x.2) then tag else ""
+  let special :=
+    (if oor then "-tsoutofrange(timestamp-setter-panic)" else "")
+    ++ (if sops.any (fun | .refused => true | _ => false) then "-refused" else "")
+    ++ (if sops.any (fun | .foreign => true | _ => false) then "-foreign" else "")
+    ++ has (fun | .sign _ (.src _) => true | _ => false) "-tsconv"
+    ++ has (fun | .signNow _ _ => true | _ => false) "-now"
+    ++ has (fun | .sign (.key _) (.secs t) => t != sigTime | _ => false) "-othertime"
+  s!"{kind}-len{opsL.length}-{fin}{special}"
+
+def handleHist (args : List String) (impl : String) : String :=
   match args with
   | kind :: blob :: opsS :: idsS :: more =>
     let gpg := more == ["gpg"]
@@ -287,20 +434,136 @@ def handle (_op : String) (args : List String) (impl : String) : String :=
         let H := cachedHashes hb p0.content
         let implRecs := impl.splitOn ";"
         let model := modelObs ids H p0 opsL gpg implRecs
+        -- where the model mirrors the unwrap panic and the implementation does NOT panic (a repaired conversion, however
+        -- it then behaves), nothing is predicted: the spec alone judges (it is silent there)
+        let firstOor := (opsL.map fun x => specOp x.2).findIdx? fun | .outOfRange => true | _ => false
+        let model := match firstOor with
+          | some i => if ((implRecs.getD (i + 1) "P:").startsWith "P:") then model else "*"
+          | none => model
         -- the spec looks at the raw bytes, not at the model's parse
         let hdrFnv := hex16 (fnv (DigestSpec.rawHeader bs))
         let contFnv := hex16 (fnv (DigestSpec.rawContent bs))
         let verdict := match judge kind ids hdrFnv contFnv gpg opsL implRecs with
           | none => "holds"
-          | some v => "fails:" ++ v
-        let final : SpecState := opsL.foldl (fun (st : SpecState) o => match o with | some o => st.after o | none => st) ⟨false, none⟩
-        let special := if opsL.any (·.isNone) then "-refused" else if opsL.any (fun o => match o with | some (.sign _ t) => t != sigTime | _ => false) then "-future" else ""
-        let fin := match final.signer with
-          | some k => "signed" ++ String.ofList [(['R', 'P', 'E', 'C'] : List Char).getD k.toNat '?']
-          | none => if final.touched then "cleared" else "untouched"
-        answer model verdict s!"{kind}-len{opsL.length}-{fin}{special}"
+          | some v => if v == silent then "dontcare" else "fails:" ++ v
+        answer model verdict (histLabel kind opsL)
       | _ => answer "start-err" (if impl == "start-err" then "dontcare" else "fails:accepted-what-model-rejects") "start-rejected"
     | _, _ => badReq "args"
   | _ => badReq "args"
+
+/-! ### the scraped tables and the signer's configuration (ops `sgbuild`, `sgnew`, `vfload`, `sgcfg`, `sgcfgk`, `tsopt`) -/
+
+def algTypeName : Gen.SigAlgs.AlgorithmType → String
+  | .RSA => "RSA" | .ECDSA => "ECDSA" | .EdDSA => "EdDSA"
+
+def algTypeOfName (s : String) : Option Gen.SigAlgs.AlgorithmType :=
+  Gen.SigAlgs.AlgorithmType.all.find? fun a => algTypeName a == s
+
+def algLabel (n : Nat) : String :=
+  if (legacyTagOf n).isSome then s!"alg{n}" else if Gen.SigAlgs.pgpNamedAlgs.contains n then "named-unsupported" else "unknown-alg"
+
+def outAlgStr : Out Gen.SigAlgs.AlgorithmType → String
+  | .ok a => "ok " ++ algTypeName a
+  | .err c => "err:" ++ c
+  | .panic _ => "panic"
+
+def subTypeOf : Subpacket → Nat
+  | .created _ => 2 | .issuer _ => 16 | .fingerprint _ => 33 | .other t => t
+
+def commaList (l : List String) : String := if l.isEmpty then "-" else ",".intercalate l
+
+/-- the text harness/src/c10.rs `describe_sig` prints for a packet with this configuration -/
+def describeConfig (c : SigConfig) : String :=
+  let created := match c.created with | some t => toString t | none => "-"
+  s!"v={c.version} typ={c.typ} alg={c.pubAlg} hash={c.hashAlg} hashed={commaList (c.hashed.map fun x => toString (subTypeOf x))} " ++
+  s!"unhashed={commaList (c.unhashed.map fun x => toString (subTypeOf x))} created={created} " ++
+  s!"issuers={commaList (c.issuers.map hexOfBytes)} fps={commaList (c.fingerprints.map hexOfBytes)}"
+
+/-- `<pgp::Signer as Signing>::sign` up to the cryptography: the configuration of the packet, or how it fails -/
+def signerConfigObs (a : Out Gen.SigAlgs.AlgorithmType) (t : Nat) (keyId fp : Bytes) : String :=
+  match a with
+  | .ok alg =>
+    match signerCreated t with
+    | .ok created => describeConfig (mkConfig alg keyId fp created)
+    | .err c => "err:" ++ c
+    | .panic _ => "panic"
+  | .err c => "err:" ++ c
+  | .panic _ => "panic"
+
+def field (obs name : String) : Option String :=
+  (obs.splitOn " ").findSome? fun kv => match kv.splitOn "=" with
+    | [k, v] => if k == name then some v else none
+    | _ => none
+
+/-- what C10 (exactly the signer's key id is reported) and C11 (creation time = the timestamp) need of the packet -/
+def judgeConfig (impl : String) (t : Nat) (keyIdHex : String) : String :=
+  if impl.startsWith "v=" then
+    if field impl "issuers" != some keyIdHex then "fails:issuer-subpackets"
+    else if field impl "created" != some (toString t) then "fails:creation-time"
+    else "holds"
+  else if impl == "panic" then "fails:signer-panic"
+  else "holds"
+
+def handleTable (op : String) (args : List String) (impl : String) : String :=
+  match op, args with
+  | "sgbuild", [a] =>
+    match a.toNat? with
+    | some n =>
+      let m := match legacyTagOf n with | some t => s!"ok {t}" | none => "err:UnsupportedPGPKeyType"
+      -- C09: tags strictly ascending in the signature header needs the legacy tag to be RPMSIGTAG_RSA / RPMSIGTAG_DSA
+      let v := if impl.startsWith "ok " then
+          (if impl == s!"ok {Gen.SigTag.RPMSIGTAG_RSA}" || impl == s!"ok {Gen.SigTag.RPMSIGTAG_DSA}" then "holds" else "fails:legacy-tag-range")
+        else "holds"
+      answer m v ("sgbuild-" ++ algLabel n)
+    | none => badReq "alg"
+  | "sgnew", [a] =>
+    match a.toNat? with
+    | some n =>
+      if impl == "unparsable" then answer "*" "dontcare" "sgnew-unparsable" else
+      -- a signer that could be constructed never makes `build` answer UnsupportedPGPKeyType
+      let v := match (impl.splitOn " ") with
+        | ["ok", name] => match algTypeOfName name with
+          | some t => if (legacyTagOf (toPgp t)).isSome && toPgp t == n then "holds" else "fails:signer-algorithm-unsupported-by-build"
+          | none => "fails:signer-algorithm-unsupported-by-build"
+        | _ => "holds"
+      answer (outAlgStr (signerNew n)) v ("sgnew-" ++ (if (signerNew n).isOk then s!"alg{n}" else algLabel n))
+    | none => badReq "alg"
+  | "vfload", [a] =>
+    match a.toNat? with
+    | some n =>
+      if impl == "unparsable" then answer "*" "dontcare" "vfload-unparsable" else
+      -- every key a signer can be made from loads as a verifier
+      let v := if (signerNew n).isOk && !impl.startsWith "ok " then "fails:verifier-rejects-signer-key" else "holds"
+      answer (outAlgStr (verifierLoad n)) v ("vfload-" ++ (if (verifierLoad n).isOk then s!"alg{n}" else algLabel n))
+    | none => badReq "alg"
+  | "sgcfg", [a, t, kid, fp] =>
+    match a.toNat?, t.toNat?, bytesOfHex kid, bytesOfHex fp with
+    | some n, some t, some k, some f =>
+      if impl == "unparsable" then answer "*" "dontcare" "sgcfg-unparsable" else
+      answer (signerConfigObs (signerNew n) t k f) (judgeConfig impl t kid)
+        ("sgcfg-" ++ (if (signerNew n).isOk then s!"alg{n}" else "refused") ++ (if t == 0 then "-t0" else if t == 4294967295 then "-tmax" else ""))
+    | _, _, _, _ => badReq "args"
+  | "sgcfgk", [key, t, kid, fp] =>
+    match key.toList, t.toNat?, bytesOfHex kid, bytesOfHex fp with
+    | [c], some t, some k, some f =>
+      match keyIndex c with
+      | some i => answer (signerConfigObs (.ok (Sym.algOf i)) t k f) (judgeConfig impl t kid) s!"sgcfgk-{key}"
+      | none => badReq "key"
+    | _, _, _, _ => badReq "args"
+  | "tsopt", [sc, ns] =>
+    match sc.toInt?, ns.toNat? with
+    | some secs, some nsecs =>
+      let m := match chronoTimestampOpt secs nsecs with | some (s', n') => s!"single {s'} {n'}" | none => "none"
+      let region := if secs < chronoMinSecs then "below" else if secs > chronoMaxSecs then "above"
+        else if nsecs ≥ 1000000000 then "leap-notation" else if 0 ≤ secs && secs < 4294967296 then "u32" else "inside"
+      -- the property says nothing about chrono: this ties the model of the library function to the library
+      answer m "dontcare" ("tsopt-" ++ region)
+    | _, _ => badReq "args"
+  | _, _ => badReq "op"
+
+def ops : List String := ["hist", "sgbuild", "sgnew", "vfload", "sgcfg", "sgcfgk", "tsopt"]
+
+def handle (op : String) (args : List String) (impl : String) : String :=
+  if op == "hist" then handleHist args impl else handleTable op args impl
 
 end RpmVerif.Driver.C10
